@@ -48,7 +48,7 @@ package types
 // or not, is spelled out -- a signature over "nil" must never verify for an id that names something.
 //@ func CanonicalizeBlockID(bid kproto.BlockID) (r *kproto.CanonicalBlockID)
 //@   for C11 C02
-//@   modifies *
+//@   modifies nothing
 //@   opt assumecallreqs
 //@   ensures [nilOnlyForTheZeroId] (r == nil) <==> (result(BlockIDFromProto, 0) == nil || *result(BlockIDFromProto, 0) == BlockID{})
 
